@@ -966,6 +966,49 @@ Definition spawn_cmd (r : registry) (e : env) (q : spawn_req) : option cmd :=
   | SPipes => pipes_cmd r e q
   | SPty => pty_cmd r e q
   end.
+(* T1: the STEP ORDER of a spawn site as tools/gen/secret_uses.py reads it from the source (Gen/SecretUses.v
+   gen_spawn_site_steps), and what a site with such a step list does *)
+Inductive sstep :=
+| SCwd             (* `if let Some(cwd) = args.cwd { resolve_path ..; current_dir(path) } else { current_dir(root) }` *)
+| SStrip           (* the removal loop over secret_env_names() at the top level of the function *)
+| SStripIfNoCwd    (* ... inside the else-block of the cwd statement *)
+| SStripIfCwd      (* ... inside its then-block *)
+| SStripCond       (* ... under some other condition: it may not run *)
+| SOwnEnv          (* the call's own `env` *)
+| SSpawn.
+Definition strip_cmd (r : registry) (c : cmd) : cmd := fold_left cmd_env_remove (stripped_names r) c.
+Fixpoint run_steps (p : list sstep) (missing_dir_fails : bool) (r : registry) (q : spawn_req) (c : cmd) : option cmd :=
+  match p with
+  | [] => None
+  | SCwd :: rest =>
+      match sp_cwd q with
+      | Some raw => if cwd_refused raw then None else run_steps rest missing_dir_fails r q (cmd_dir c raw)
+      | None => run_steps rest missing_dir_fails r q (cmd_dir c [])
+      end
+  | SStrip :: rest => run_steps rest missing_dir_fails r q (strip_cmd r c)
+  | SStripIfNoCwd :: rest => run_steps rest missing_dir_fails r q (match sp_cwd q with None => strip_cmd r c | Some _ => c end)
+  | SStripIfCwd :: rest => run_steps rest missing_dir_fails r q (match sp_cwd q with None => c | Some _ => strip_cmd r c end)
+  | SStripCond :: rest => run_steps rest missing_dir_fails r q c
+  | SOwnEnv :: rest => run_steps rest missing_dir_fails r q (fold_left cmd_env_set (req_env q) c)
+  | SSpawn :: _ =>
+      match sp_cwd q with
+      | Some _ => if sp_dir_exists q || negb missing_dir_fails then Some c else None
+      | None => Some c
+      end
+  end.
+Definition sstep_code (s : sstep) : N :=
+  match s with SCwd => 0 | SStrip => 1 | SStripIfNoCwd => 2 | SStripIfCwd => 3 | SStripCond => 4 | SOwnEnv => 5 | SSpawn => 6 end.
+Definition modelled_steps : list sstep := [SCwd; SStrip; SOwnEnv; SSpawn].
+Definition steps_as_modelled (p : list sstep) : bool := lN_eqb (map sstep_code p) (map sstep_code modelled_steps).
+(* the three sites the model has: (file, function) *)
+Definition modelled_spawn_sites : list (str * str) :=
+  [(lit "rip-tools/src/builtins/shell.rs", lit "run_command");
+   (lit "ripd/src/tasks/pipes.rs", lit "run_pipes_task");
+   (lit "ripd/src/tasks/pty.rs", lit "run_pty_task")].
+Definition site_steps_wf (g : list (str * str * list sstep)) : bool :=
+  list_eqb (fun a b => str_eqb (fst a) (fst b) && str_eqb (snd a) (snd b)) (map fst g) modelled_spawn_sites
+  && forallb (fun s => steps_as_modelled (snd s)) g.
+
 (* the environment of the child; None: nothing is spawned *)
 Definition child_env (r : registry) (e : env) (q : spawn_req) : option env := option_map cm_env (spawn_cmd r e q).
 (* the same as a function of the STRIPPED environment and of the request alone *)
